@@ -1,7 +1,227 @@
-//! replay of counterexamples of the other engines (filled in as engines are added)
-use serde_json::Value;
+//! the engines other than the single-map explorer: dispatch and replay
+use prefix_trie::{PrefixMap, PrefixSet};
+use serde_json::{json, Value};
 
-pub fn replay_other(engine: &str, _rp: &Value, _path: &str) -> i32 {
-    println!("MACHINERY-ERROR no replay support for engine {engine}");
-    2
+use crate::arena::KeyOpts;
+use crate::dispatch_ptype;
+use crate::ops::{Alphabet, Op};
+use crate::pairs::{self, PState, RootMode, Side};
+use crate::ptypes::{PType, GK};
+use crate::registry::{ops_from_json, rebuild};
+use crate::universe::{with_rep, Embed, Universe};
+use crate::viol::guarded;
+
+fn s<'a>(v: &'a Value, k: &str, d: &'a str) -> &'a str {
+    v.get(k).and_then(|x| x.as_str()).unwrap_or(d)
+}
+fn u(v: &Value, k: &str, d: u64) -> u64 {
+    v.get(k).and_then(|x| x.as_u64()).unwrap_or(d)
+}
+
+fn uni_of<P: PType>(spec: &Value) -> Universe {
+    let embed = if s(spec, "embed", "hi") == "lo" { Embed::Lo } else { Embed::Hi };
+    Universe::new(s(spec, "universe", "U2"), embed, P::WIDTH)
+}
+
+fn ops_json(h: &[Op], uni: &Universe) -> Vec<Value> {
+    h.iter()
+        .map(|op| {
+            let k = uni.keys.get(op.key as usize).copied().unwrap_or((0, 0));
+            json!({"kind": format!("{:?}", op.kind), "key_id": op.key, "key": [format!("{:#034x}", k.0), k.1], "rep": op.rep, "arg": op.arg, "text": op.describe(uni)})
+        })
+        .collect()
+}
+
+fn gk_json(k: GK) -> Value {
+    json!([format!("{:#034x}", k.0), k.1])
+}
+fn gk_from(v: &Value) -> GK {
+    (u128::from_str_radix(v[0].as_str().unwrap().trim_start_matches("0x"), 16).unwrap(), v[1].as_u64().unwrap() as u8)
+}
+
+fn pairs_typed<P: PType, B: Side<P>>(spec: &Value, right_kind: &str) -> Value {
+    let uni = uni_of::<P>(spec);
+    let threads = u(spec, "threads", 1) as usize;
+    let all_roots = spec.get("all_roots").and_then(|x| x.as_bool()).unwrap_or(false);
+    let alpha = if s(spec, "alpha", "structural") == "canonical" { Alphabet::Canonical } else { Alphabet::Structural };
+    let (left, rep_l): (Vec<PState<PrefixMap<P, u32>>>, _) = pairs::gen_states::<P, PrefixMap<P, u32>>(&uni, 0, alpha, all_roots, threads, "left states");
+    let right_alpha = if s(spec, "right_alpha", "") == "canonical" { Alphabet::Canonical } else { alpha };
+    let (right, rep_r): (Vec<PState<B>>, _) = pairs::gen_states::<P, B>(&uni, 1, right_alpha, all_roots, threads, "right states");
+    let mode = if s(spec, "mode", "all") == "whole" { RootMode::Whole } else { RootMode::All };
+    let (m, r) = (u(spec, "a_mod", 1) as usize, u(spec, "a_rem", 0) as usize);
+    let filter = move |i: usize| i % m == r;
+    let pr = pairs::run_pairs::<P, PrefixMap<P, u32>, B>(&left, &right, &uni, mode, threads, &filter);
+    let found: Vec<Value> = pr
+        .found
+        .iter()
+        .map(|f| {
+            json!({
+                "property": f.viol.prop, "site": f.viol.site, "cond": f.viol.cond, "detail": f.viol.detail, "at": "pair", "occurrences": f.occurrences,
+                "history": ops_json(&left[f.a].hist, &uni),
+                "extra": {"b_history": ops_json(&right[f.b].hist, &uni), "root_a": gk_json(f.qa), "root_b": gk_json(f.qb), "right_kind": right_kind},
+            })
+        })
+        .collect();
+    let sample = left.iter().zip(right.iter().rev()).find(|(a, b)| a.hist.len() >= 3 && b.hist.len() >= 3).map(|(a, b)| {
+        json!({"left_history": a.hist.iter().map(|o| o.describe(&uni)).collect::<Vec<_>>(), "right_history": b.hist.iter().map(|o| o.describe(&uni)).collect::<Vec<_>>(), "left_roots": a.roots.len(), "right_roots": b.roots.len()})
+    });
+    json!({
+        "spec": spec, "engine": "pairs", "run": format!("pairs {} {} x {} {} roots={:?}", P::NAME, uni.name, right_kind, s(spec, "right_alpha", s(spec, "alpha", "structural")), mode),
+        "states": rep_l.states + rep_r.states, "shape_states": rep_l.shape_states + rep_r.shape_states, "transitions": rep_l.transitions + rep_r.transitions,
+        "left_states": left.len(), "right_states": right.len(), "pairs": pr.pairs, "root_pairs": pr.root_pairs,
+        "evaluations": pr.counters.evaluations, "items": pr.counters.items, "both_items": pr.counters.both_items, "lpm_annotations_some": pr.counters.lpm_some,
+        "distinct_outcomes": pr.counters.nonempty_results,
+        "exhaustive": rep_l.exhaustive && rep_r.exhaustive, "cap_hit": rep_l.cap_hit.or(rep_r.cap_hit), "wall_s": pr.wall_s + rep_l.wall_s + rep_r.wall_s,
+        "samples": sample.into_iter().collect::<Vec<_>>(), "found": found,
+    })
+}
+
+fn run_pairs_engine<P: PType>(spec: &Value) -> Value {
+    if s(spec, "right_kind", "map") == "set" {
+        pairs_typed::<P, PrefixSet<P>>(spec, "set")
+    } else {
+        pairs_typed::<P, PrefixMap<P, u32>>(spec, "map")
+    }
+}
+
+fn run_self_engine<P: PType>(spec: &Value) -> Value {
+    let uni = uni_of::<P>(spec);
+    let threads = u(spec, "threads", 1) as usize;
+    let (states, rep): (Vec<PState<PrefixMap<P, u32>>>, _) = pairs::gen_states::<P, PrefixMap<P, u32>>(&uni, 2, Alphabet::Structural, true, threads, "states");
+    let sr = crate::pairs2::run_self::<P>(&states, &uni, threads);
+    let found: Vec<Value> = sr
+        .found
+        .iter()
+        .map(|f| json!({"property": f.viol.prop, "site": f.viol.site, "cond": f.viol.cond, "detail": format!("{} [{}]", f.viol.detail, f.what), "at": "selfpair", "occurrences": f.occurrences, "history": ops_json(&states[f.a].hist, &uni)}))
+        .collect();
+    let sample = states.iter().rev().find(|a| a.hist.len() >= 4).map(|a| json!({"history": a.hist.iter().map(|o| o.describe(&uni)).collect::<Vec<_>>(), "roots": a.roots.len()}));
+    json!({
+        "spec": spec, "engine": "selfpairs", "run": format!("selfpairs {} {}", P::NAME, uni.name),
+        "states": rep.states, "shape_states": rep.shape_states, "transitions": rep.transitions,
+        "evaluations": sr.counters.evaluations, "items": sr.counters.items, "distinct_outcomes": sr.counters.nonempty_results,
+        "exhaustive": rep.exhaustive, "cap_hit": rep.cap_hit, "wall_s": sr.wall_s + rep.wall_s, "samples": sample.into_iter().collect::<Vec<_>>(), "found": found,
+    })
+}
+
+fn eq_typed<P: PType, S: crate::pairs2::EqSide<P>>(spec: &Value, kind: &str) -> Value {
+    let uni = uni_of::<P>(spec);
+    let threads = u(spec, "threads", 1) as usize;
+    let (states, rep): (Vec<PState<S>>, _) = pairs::gen_states::<P, S>(&uni, 0, Alphabet::Structural, false, threads, "states");
+    let er = crate::pairs2::run_eq::<P, S>(&states, &uni, threads);
+    let found: Vec<Value> = er
+        .found
+        .iter()
+        .map(|(v, a, b, var, occ)| {
+            json!({"property": v.prop, "site": v.site, "cond": v.cond, "detail": v.detail, "at": "eqpair", "occurrences": occ,
+                   "history": ops_json(&states[*a].hist, &uni), "extra": {"b_history": ops_json(&states[*b].hist, &uni), "variant": var, "kind": kind}})
+        })
+        .collect();
+    let sample = states.iter().rev().find(|a| a.hist.len() >= 4).map(|a| json!({"history": a.hist.iter().map(|o| o.describe(&uni)).collect::<Vec<_>>()}));
+    json!({
+        "spec": spec, "engine": "eqpairs", "run": format!("eqpairs {} {} {}", kind, P::NAME, uni.name),
+        "states": rep.states, "shape_states": rep.shape_states, "transitions": rep.transitions,
+        "pairs": er.pairs, "evaluations": er.pairs * 3 + er.per_state_checks, "equal_pairs": er.equal_pairs, "equal_pairs_different_shape": er.equal_pairs_different_shape,
+        "strict_prefix_pairs": er.strict_prefix_pairs, "distinct_outcomes": er.equal_pairs_different_shape + er.strict_prefix_pairs,
+        "exhaustive": rep.exhaustive, "cap_hit": rep.cap_hit, "wall_s": er.wall_s + rep.wall_s, "samples": sample.into_iter().collect::<Vec<_>>(), "found": found,
+    })
+}
+
+fn run_eq_engine<P: PType>(spec: &Value) -> Value {
+    if s(spec, "kind", "map") == "set" {
+        eq_typed::<P, PrefixSet<P>>(spec, "set")
+    } else {
+        eq_typed::<P, PrefixMap<P, u32>>(spec, "map")
+    }
+}
+
+fn run_algebra_engine<P: PType>(spec: &Value) -> Value {
+    let t0 = std::time::Instant::now();
+    let r = crate::algebra::run_algebra::<P>(u(spec, "seed", 0), spec.get("deep").and_then(|x| x.as_bool()).unwrap_or(false));
+    let found: Vec<Value> = r
+        .found
+        .iter()
+        .map(|(v, a, b, occ)| json!({"property": v.prop, "site": v.site, "cond": v.cond, "detail": v.detail, "at": "algebra", "occurrences": occ, "history": [], "extra": {"a": gk_json(*a), "b": gk_json(*b)}}))
+        .collect();
+    json!({
+        "spec": spec, "engine": "algebra", "run": format!("algebra {}", P::NAME),
+        "values": r.values, "pairs": r.pairs, "sampled_pairs": r.sampled_pairs, "evaluations": r.evaluations, "distinct_outcomes": r.values + r.pairs,
+        "outcome_classes": r.outcome_classes, "exhaustive": true, "wall_s": t0.elapsed().as_secs_f64(),
+        "samples": [format!("{}: all lengths 0..={} x first differing bit x head patterns x host-bit patterns; is_bit_set for every index 0..=255", P::NAME, P::WIDTH)],
+        "found": found,
+    })
+}
+
+fn replay_algebra<P: PType>(rp: &Value) -> Option<Vec<crate::viol::Viol>> {
+    Some(crate::algebra::replay_pair::<P>(gk_from(&rp["extra"]["a"]), gk_from(&rp["extra"]["b"])))
+}
+
+pub fn run_engine(name: &str, spec: &Value, _idx: usize) -> Value {
+    let ptype = s(spec, "ptype", "u8").to_string();
+    match name {
+        "pairs" => dispatch_ptype!(ptype.as_str(), run_pairs_engine(spec)),
+        "selfpairs" => dispatch_ptype!(ptype.as_str(), run_self_engine(spec)),
+        "eqpairs" => dispatch_ptype!(ptype.as_str(), run_eq_engine(spec)),
+        "algebra" => dispatch_ptype!(ptype.as_str(), run_algebra_engine(spec)),
+        other => json!({"machinery_error": format!("unknown engine {other}")}),
+    }
+}
+
+fn replay_pairs_typed<P: PType, B: Side<P>>(rp: &Value) -> Option<Vec<crate::viol::Viol>> {
+    let spec = &rp["spec"];
+    let uni = uni_of::<P>(spec);
+    let ko = KeyOpts { reps: false, layout: false, no_free: true };
+    let ha = ops_from_json(&rp["history"]);
+    let hb = ops_from_json(&rp["extra"]["b_history"]);
+    let a = rebuild::<PrefixMap<P, u32>>(&uni, &ha, ko)?;
+    let b = rebuild::<B>(&uni, &hb, ko)?;
+    let (qa, qb) = (gk_from(&rp["extra"]["root_a"]), gk_from(&rp["extra"]["root_b"]));
+    let mut am = a.map.clone();
+    let mut bm = b.map.clone();
+    let mut sa = a.model.entries();
+    let mut sb = b.model.entries();
+    let mut cnt = pairs::PairCounters::default();
+    let r = guarded(|| pairs::eval_root_pair::<P, PrefixMap<P, u32>, B>(&mut am, &mut bm, &mut sa, &mut sb, with_rep(qa, 1, uni.width), with_rep(qb, 0, uni.width), uni.width, 1_000_000, &mut cnt));
+    Some(match r {
+        Ok(v) => v,
+        Err(msg) => vec![crate::viol::Viol::new("C20", "set operation", "panic", msg)],
+    })
+}
+
+fn replay_pairs<P: PType>(rp: &Value) -> Option<Vec<crate::viol::Viol>> {
+    if rp["extra"]["right_kind"].as_str() == Some("set") {
+        replay_pairs_typed::<P, PrefixSet<P>>(rp)
+    } else {
+        replay_pairs_typed::<P, PrefixMap<P, u32>>(rp)
+    }
+}
+
+pub fn replay_other(engine: &str, rp: &Value, path: &str) -> i32 {
+    let ptype = rp["spec"]["ptype"].as_str().unwrap_or("u8").to_string();
+    let run = || -> Option<Vec<crate::viol::Viol>> {
+        match engine {
+            "pairs" => dispatch_ptype!(ptype.as_str(), replay_pairs(rp)),
+            "algebra" => dispatch_ptype!(ptype.as_str(), replay_algebra(rp)),
+            _ => None,
+        }
+    };
+    let (a, b) = (run(), run());
+    let (Some(a), Some(b)) = (a, b) else {
+        println!("MACHINERY-ERROR cannot replay engine {engine}");
+        return 2;
+    };
+    if a != b {
+        println!("MACHINERY-ERROR replay is not deterministic");
+        return 2;
+    }
+    let (prop, site, cond) = (rp["property"].as_str().unwrap_or(""), rp["site"].as_str().unwrap_or(""), rp["cond"].as_str().unwrap_or(""));
+    for v in &a {
+        println!("observed: {} {} {} :: {}", v.prop, v.site, v.cond, v.detail);
+    }
+    if a.iter().any(|v| v.prop == prop && v.site == site && v.cond == cond) {
+        println!("VIOLATION property={prop} replay={path}");
+        1
+    } else {
+        println!("not reproduced: property={prop} site={site} cond={cond}");
+        0
+    }
 }
